@@ -152,6 +152,30 @@ def rule_control_tlv_dispatch(report, prog, rule='C03-R1'):
             report.check(got.get(t) == [fn], rule, key(q, 'control TLV type %d is evaluated by %s' % (t, fn)), f.loc(),
                          '%s evaluates control TLV type %d with %s: lock control sizes are bits, memory control sizes are bytes -- the reserved range '
                          'is wrong and NDEF data / capacity no longer avoid it' % (q, t, got.get(t)))
+    # ... and each helper computes the range the TLV declares: position = PageAddr * 2^BytesPerPage + ByteOffset; a Lock Control
+    # TLV reserves ceil(bits / 8) bytes, a Memory Control TLV `size` bytes, a size field of 0 means 256.  The helpers (and what they
+    # call) are folded by the checker for a grid of TLV values and compared with that definition.
+    from ..q import fold_func, NotConst
+    grid = [(b0, b1, b2) for b0 in (0x00, 0x17, 0xA0, 0xFF) for b1 in (0, 1, 7, 8, 9, 16, 128, 255) for b2 in (0x00, 0x03, 0x44, 0x2F)]
+    for mod in ('nfc.tag.tt1', 'nfc.tag.tt2'):
+        for name, size_of in (('get_lock_byte_range', lambda s_: ((s_ or 256) + 7) // 8), ('get_rsvd_byte_range', lambda s_: (s_ or 256))):
+            f = prog.func(mod + '.' + name)
+            bad = []
+            for b0, b1, b2 in grid:
+                start = (b0 >> 4) * 2 ** (b2 & 15) + (b0 & 15)
+                want_ = slice(start, start + size_of(b1))
+                try:
+                    got_ = fold_func(prog, f, [bytearray([b0, b1, b2])])
+                except NotConst as e:
+                    bad.append('cannot fold (%s)' % e)
+                    break
+                except Exception as e:      # noqa: B902 -- arithmetic on the folded values (index, type): report as a wrong range
+                    got_ = '%s: %s' % (type(e).__name__, e)
+                if got_ != want_:
+                    bad.append('TLV value %02X %02X %02X: %s, the TLV declares bytes %d..%d' % (b0, b1, b2,
+                               'bytes %d..%d' % (got_.start, got_.stop - 1) if isinstance(got_, slice) else got_, want_.start, want_.stop - 1))
+            report.check(not bad, rule, key(mod + '.' + name, 'computes the byte range the control TLV declares'), f.loc(),
+                         '%s.%s: %s' % (mod, name, '; '.join(bad[:2])), detail='%d TLV values folded' % len(grid))
 
 
 # product -> allowed constant stores (start, stop) and expected value length
